@@ -120,10 +120,17 @@ class ReverseProxy(TcpUpstreamConnectionHandler, HttpWebServerBasePlugin):
                 if self.choice.scheme == HTTP_PROTO
                 else self.choice.port or DEFAULT_HTTPS_PORT
             )
+            # Upstream connection of the previous request on this client
+            # connection, if any.  It is closed only after the new one exists,
+            # so that the new socket does not reuse a descriptor number which
+            # is still registered with the event loop for the old one.
+            previous = self.upstream
             self.initialize_upstream(text_(self.choice.hostname), port)
             assert self.upstream
             try:
                 self.upstream.connect()
+                if previous is not None and not previous.closed:
+                    previous.close()
                 if self.choice.scheme == HTTPS_PROTO:
                     self.upstream.wrap(
                         text_(self.choice.hostname),
